@@ -6,8 +6,8 @@ use crate::history::{LedgerSnap, SrcInfo, Vals};
 use crate::hooks;
 use orx_concurrent_iter::iter::atomic_iter::AtomicIter;
 use orx_concurrent_iter::{
-    ConcurrentIter, ConcurrentIterable, IntoCloned, IntoConcurrentIter, IntoCopied,
-    IterIntoConcurrentIter,
+    ConIterOfArray, ConIterOfIter, ConIterOfRange, ConIterOfSlice, ConIterOfVec, ConcurrentIter, ConcurrentIterable,
+    IntoCloned, IntoConcurrentIter, IntoCopied, IterIntoConcurrentIter,
 };
 
 /// Wrapped sequential iterator owned by the harness. Reports each execution of `next` to the
@@ -134,6 +134,11 @@ fn pre_pull<I: ConcurrentIter>(it: &I, case: &Case) {
     }
 }
 
+/// Which of the equivalent public constructors builds the iterator (all must behave identically).
+fn ctor(case: &Case) -> u64 {
+    case.vseed % 4
+}
+
 /// Range bounds of a range case.
 pub fn range_bounds(case: &Case) -> (usize, usize) {
     let s = case.range_start;
@@ -193,7 +198,12 @@ pub fn with_source<B: Body>(case: &Case, body: B) -> (B::Out, bool) {
         Kind::Slice => {
             let v = tracked_vec(case, led, 0);
             let info = table_info(case, addrs_of(&v), true);
-            let it = IntoConcurrentIter::into_con_iter(v.as_slice());
+            let it = match ctor(case) {
+                1 => ConIterOfSlice::new(v.as_slice()),
+                2 => ConIterOfSlice::from(v.as_slice()),
+                3 => v.as_slice().into(),
+                _ => IntoConcurrentIter::into_con_iter(v.as_slice()),
+            };
             pre_pull(&it, case);
             let out = body.run(it, &info);
             (out, intact_tracked(case, &v, led))
@@ -225,7 +235,12 @@ pub fn with_source<B: Body>(case: &Case, body: B) -> (B::Out, bool) {
             Layout::Tracked => {
                 let v = tracked_vec(case, led, n + case.extra_cap);
                 let info = table_info(case, vec![], true);
-                let it = IntoConcurrentIter::into_con_iter(v);
+                let it = match ctor(case) {
+                    1 => ConIterOfVec::new(v),
+                    2 => ConIterOfVec::from(v),
+                    3 => v.into(),
+                    _ => IntoConcurrentIter::into_con_iter(v),
+                };
                 (body.run(it, &info), true)
             }
             Layout::Boxed => {
@@ -277,7 +292,12 @@ pub fn with_source<B: Body>(case: &Case, body: B) -> (B::Out, bool) {
             Layout::Tracked => {
                 with_array!(n, |i| Tracked::new(i as u32, val_of(case, i), led), |a| {
                     let info = table_info(case, vec![], true);
-                    let it = IntoConcurrentIter::into_con_iter(a);
+                    let it = match ctor(case) {
+                        1 => ConIterOfArray::new(a),
+                        2 => ConIterOfArray::from(a),
+                        3 => a.into(),
+                        _ => IntoConcurrentIter::into_con_iter(a),
+                    };
                     (body.run(it, &info), true)
                 })
             }
@@ -296,7 +316,12 @@ pub fn with_source<B: Body>(case: &Case, body: B) -> (B::Out, bool) {
                 let it = ConcurrentIterable::con_iter(&r);
                 (body.run(it, &info), r == (s..e))
             } else {
-                let it = IntoConcurrentIter::into_con_iter(r);
+                let it = match ctor(case) {
+                    1 => ConIterOfRange::new(r),
+                    2 => ConIterOfRange::from(r),
+                    3 => r.into(),
+                    _ => IntoConcurrentIter::into_con_iter(r),
+                };
                 (body.run(it, &info), true)
             }
         }
@@ -320,7 +345,13 @@ pub fn with_source<B: Body>(case: &Case, body: B) -> (B::Out, bool) {
             _ => {
                 let v = tracked_vec(case, led, 0);
                 let info = table_info(case, vec![], true);
-                let it = IterIntoConcurrentIter::into_con_iter(Probe::new(v, case.hint));
+                let p = Probe::new(v, case.hint);
+                let it = match ctor(case) {
+                    1 => ConIterOfIter::new(p),
+                    2 => ConIterOfIter::from(p),
+                    3 => p.into(),
+                    _ => IterIntoConcurrentIter::into_con_iter(p),
+                };
                 (body.run(it, &info), true)
             }
         },
